@@ -270,10 +270,13 @@ def prim_case(draw, conn):
     if name == "powm":
         case["power"] = draw(st.integers(0, 4))
     if name == "assign":
-        case["form"] = draw(st.sampled_from(
-            ["int", "index_matrix", "index_matrix_batch", "tuple", "ix", "modes"]))
+        forms = ["int", "index_matrix", "index_matrix_batch", "tuple", "ix", "modes"]
+        if conn == "tf" and draw(st.integers(0, 9)) != 0:
+            forms = forms[:3]  # the other index forms are not implemented for tensors
+        case["form"] = draw(st.sampled_from(forms))
     if name == "embed_in_identity":
-        case["form"] = draw(st.sampled_from(["operator_index", "ix"]))
+        case["form"] = draw(st.sampled_from(
+            ["operator_index"] * (9 if conn == "tf" else 1) + ["ix"]))
         case["dim"] = case["n"] + draw(st.integers(0, 3))
     if name in ("permanent", "hafnian", "loop_hafnian"):
         case["mult"] = draw(st.lists(st.integers(0, 2), min_size=2 * case["n"],
